@@ -341,6 +341,7 @@ class LogWorld:
         self.glog = gunicorn.glogging
         self.saved_b64 = gunicorn.glogging.base64
         self.calls = []
+        self.access_errors = []
         world = self.W
         logger = world.log
         orig_access = logger.access
@@ -352,6 +353,10 @@ class LogWorld:
             me.spy.calls = []
             try:
                 orig_access(resp, req, environ, request_time)
+            except Exception as e:
+                # the logger itself failed on this request: no record, and the exception goes on into the worker
+                me.access_errors.append("%s: %s" % (type(e).__name__, e))
+                raise
             finally:
                 me.glog.base64 = me.saved_b64
             me.calls.append(((resp, req, dict(environ)), list(world.lines[n0:]), list(me.spy.calls)))
@@ -365,6 +370,7 @@ class LogWorld:
         W = self.W
         W.begin(apps=[app or {"acts": [("start", 200, 2), ("return",), ("write", b"ok")], "file": None}])
         self.calls = []
+        self.access_errors = []
         sock = L.TSock(W.trace, segs=[data] if data else [])
         esc = W.serve(sock, addr)
         sock.dispose()
@@ -520,6 +526,15 @@ def record_side(ctx, quick):
             ctx.count_case(("l", kind, fmt, data), bool(LW.calls))
             ctx.hist("swept_field", field)
             ctx.hist("record_produced", "yes" if LW.calls else "no (request rejected without request object)")
+            # a request whose application call completed has exactly one record - whatever the client put into it
+            app_calls = sum(1 for e in LW.W.trace if e[0] == "app")
+            if app_calls == 1 and len(LW.calls) != 1:
+                nfail += 1
+                if len(ctx.violations) < 3:
+                    ctx.violation("record-count [%s worker]: field %s: the application call completed (200 sent) but %d record(s) were written%s"
+                                  % (kind, field, len(LW.calls), (" - Logger.access raised " + LW.access_errors[0]) if LW.access_errors else ""),
+                                  {"kind": "record", "worker": kind, "fmt": fmt, "data": data.decode("latin-1"), "field": field,
+                                   "failures": [["record-count", "%d records" % len(LW.calls)]]})
             for (args, lines, b64calls) in LW.calls:
                 nlines += 1
                 expr, obs = line_case(LW.W, LW.fmt, args, lines, b64calls)
